@@ -217,6 +217,16 @@ def Sys.init (pri sec : Store α) : Sys α := ⟨pri, sec, fun _ => .idle, 0, []
 
 /-! ### Wrappers -/
 
+/-- `MultiClient.writeToSecondary`: "propagate new value to all remaining clients" — the mirror write
+goes to every client of `m.clients` except the one the CAS call used as primary
+(`if kvc == primary { continue }`). Clients are identified by their position in `m.clients`; the
+primary is `primaryID`, which `setNewPrimaryClient` (runtime configuration) may have moved away from
+position 0. In `Sys`, `pri` is the store the calls use as primary and `sec` the remaining one,
+wherever they sit in the client list; the mirror phases (`mreading`/`mholding`) are the store-level
+steps of this loop and act on `sec` only. -/
+def mirrorTargets (clients : List Nat) (primary : Nat) : List Nat :=
+  clients.filter (fun c => c != primary)
+
 /-- `prefixedKVClient`: every operation goes to `prefix ++ key`. -/
 def prefixKey (p : Key) (k : Key) : Key := p ++ k
 
